@@ -4,10 +4,15 @@ import itertools
 import json
 import random
 
+import genproof
 import vf
 
 ALPHABET = [b"a", b"7", b"_", b"-", b".", "é".encode(), "€".encode(),
-            "\U0001F600".encode(), "�".encode(), b"\xff", "\u0663".encode()]          # the last one: a decimal digit outside ASCII
+            "\U0001F600".encode(), "�".encode(), b"\xff", "\u0663".encode(),         # ... a decimal digit outside ASCII,
+            "\u012d".encode()]                                                           # and a letter whose code point ends in the byte of '-'
+# code points whose low byte is one of the ASCII bytes the function treats specially (- _ . 0 9 A a :), in every UTF-8 length:
+# a comparison made on a truncated rune takes them for that ASCII character
+LOWBYTE = [chr(hi * 0x100 + lo).encode("utf-8") for lo in (0x2D, 0x5F, 0x2E, 0x30, 0x39, 0x41, 0x61, 0x3A) for hi in (0x01, 0x4E, 0x1F3)]
 
 TRUSTED = [
     "Coq 8.16.1 kernel (coqc; coqchk in the thorough tier); vm_compute used in Examples only",
@@ -24,6 +29,8 @@ def corpus():
     for cp in edges:
         u = chr(cp).encode("utf-8")
         out += [u, b"a" + u + b"b", b"-" + u + b"-", b"1" + u, u + u, b"a" + u, u + b"-" + u]
+    for u in LOWBYTE:
+        out += [u, u + b"-", b"-" + u, u + b"-" + u, b"a" + u + b"-b", u + b"--", u + b"_", b"_" + u, b"9" + u, u + b"9", u + b".", u + b"a", u + b"-" + b"a", b"0" + u + b"-"]
     # lengths around every power of two a fixed buffer could have
     for n in (63, 64, 65, 127, 128, 129, 255, 256, 257, 1023, 1024, 1025, 4095, 4096, 4097):
         out += [b"a" * n, b"a" * (n - 1) + b"-", b"-" * n, b"a" * (n - 2) + "\u20ac".encode()[:3], b"9" + b"b" * (n - 1), b"a" * (n - 1) + b"\xff"]
@@ -44,7 +51,7 @@ def gen(tier, seed):
             cases.append(b"".join(t))
     nrand = 20000 if tier == "quick" else 400000
     import gen_line as GL
-    pool = [b"-", b"_", b".", b"a", b"Z", b"0", b"9", b"\xff", b"\x80", b"\xc3", b"\xe2\x82", b"\xf0\x9f", b":", b" "] + ALPHABET + GL.UNICODE_ATOMS
+    pool = [b"-", b"_", b".", b"a", b"Z", b"0", b"9", b"\xff", b"\x80", b"\xc3", b"\xe2\x82", b"\xf0\x9f", b":", b" "] + ALPHABET + GL.UNICODE_ATOMS + LOWBYTE
     for _ in range(nrand):
         k = rnd.randint(1, 64)
         mode = rnd.random()
@@ -82,9 +89,9 @@ def clause(inp, impl_line, spec_hex):
     return None
 
 
-def run(rep, tier, seed, replay):
+def _run(rep, tier, seed, replay):
     rep.cov["trusted_base"] = TRUSTED
-    rep.cov["rule"] = ("corpus + all strings over an 11-symbol alphabet (letter, digit, _, -, ., 2/3/4-byte rune, a non-ASCII decimal digit, "
+    rep.cov["rule"] = ("corpus + all strings over a 12-symbol alphabet (letter, digit, _, -, ., 2/3/4-byte rune, a non-ASCII decimal digit, a letter whose code point ends in 0x2D, "
                        "U+FFFD, stray 0xff) up to length %d + random byte strings <= 64; non-trivial = the "
                        "escaped result differs from the input; distinct by input bytes" % (5 if tier == "quick" else 6))
     rep.cov["exhaustive"] = False
@@ -120,3 +127,9 @@ def run(rep, tier, seed, replay):
     rep.sample(dict(input=repr(cases[len(cases) // 2]), impl=impl[len(cases) // 2], model=model[len(cases) // 2]))
     rep.sample(dict(input=repr(cases[-1]), impl=impl[-1], model=model[-1]))
     rep.extra["input_length_histogram"] = {str(k): v for k, v in sorted(lens.items())}
+
+
+def run(rep, tier, seed, replay):
+    _run(rep, tier, seed, replay)
+    if not replay:
+        genproof.digest_obligation(rep, "escaped names are memoised under a digest")
